@@ -43,6 +43,15 @@ fn spaces(tier: Tier) -> Vec<Space> {
     s.updates = odd_updates();
     s.urgencies = vec![Urg::None, Urg::High];
     v.push(Space { name: "R2-odd-strings", sys: s, depth: if q { 5 } else { 6 } });
+    // updates recorded with a wrong old value (a caller holding a stale copy of the task): what
+    // reaches the chain and what the snapshot holds must still agree
+    let mut s = SyncSys::new(2);
+    s.c12 = true;
+    s.c01 = false;
+    s.updates = vec![("p".into(), Some("a".into()), 1), ("p".into(), Some("b".into()), 2), ("p".into(), None, 2)];
+    s.stale_old = true;
+    s.urgencies = vec![Urg::None, Urg::High];
+    v.push(Space { name: "R2-stale-old-values", sys: s, depth: if q { 5 } else { 7 } });
     if !q {
         let mut s = SyncSys::new(3);
         s.c12 = true;
